@@ -31,6 +31,12 @@ OUTERS = ["User", "Svc", "Api"]
 PALETTE = [t for t in c07.PALETTE if json.dumps(t) not in (json.dumps(Ptr(Reg("Tree"))),)]
 
 
+def naming_path(p):
+    """the field names that contribute a name segment: an embedded (anonymous) struct field contributes none"""
+    emb = p.get("embed") or []
+    return [f for i, f in enumerate(p["path"]) if not (i < len(emb) and emb[i])]
+
+
 def mangled(ns, tag, path):
     n = tag if tag else ".".join(path).encode()
     n = n.replace(b".", b"_")
@@ -121,9 +127,18 @@ class Gen08:
         # naming
         ns = kw.get("ns", r.choice([b"", b"", b"user", b"ns1"]) if via == "proxy" else b"")
         path = [r.choice(OUTERS)] * (1 if r.random() < 0.3 else 0) + [r.choice(FIELDS)]
+        embed, ptrlv = [], []
+        if via == "proxy" and r.random() < 0.35:
+            # deeper proxies: nested named structs, embedded (anonymous) structs at any level, pointers to structs
+            depth = r.choice([1, 2, 2, 3])
+            outer = r.sample(OUTERS + ["Admin", "Common", "Audit"], depth)
+            path = outer + [r.choice(FIELDS)]
+            embed = [r.random() < 0.45 for _ in outer] + [False]
+            ptrlv = [r.random() < 0.3 and not e for e in embed[:-1]]
+        npath = [f for i, f in enumerate(path) if not (i < len(embed) and embed[i])]
         tag = r.choice([b"", b"", b"add", b"getUser", "方法".encode(), b"a.b"]) if via == "proxy" else b""
         if via == "proxy":
-            wire = mangled(ns, tag, path)
+            wire = mangled(ns, tag, npath)
         else:
             wire = kw.get("call", r.choice(c07.NAMES))
         reg_name = kw.get("reg_name", c07.respell(r, wire))
@@ -163,7 +178,7 @@ class Gen08:
                 pparams = [params[i] for i in range(fixed)] + [params[-1]]
             elif not missing:
                 pparams = list(params)
-            proxy = {"path": path, "tag": hx(tag), "ns": hx(ns), "ctx": kw.get("pctx", r.random() < 0.4), "variadic": pvar,
+            proxy = {"path": path, "embed": embed, "ptr": ptrlv, "tag": hx(tag), "ns": hx(ns), "ctx": kw.get("pctx", r.random() < 0.4), "variadic": pvar,
                      "nfixed": fixed if pvar else len(pparams), "params": pparams,
                      "outs": rtypes or [], "err": kw.get("perr", r.random() < 0.8)}
         nh = r.choice([0, 0, 0, 1, 2])
@@ -180,8 +195,17 @@ class Gen08:
             rhdrs = []
             for k in [b"rk", shared, b"server"]:
                 if k and k != b"simple" and r.random() < 0.2:
-                    rhdrs.append({"k": hx(k), "v": {"t": IFACE, "v": {"t": T("string"), "v": hx(shared)}} if r.random() < 0.6
-                                  else self.cg.value_for(IFACE, pool)})
+                    hvv = {"t": IFACE, "v": {"t": T("string"), "v": hx(shared)}} if r.random() < 0.6 else self.cg.value_for(IFACE, pool)
+                    for _ in range(20):
+                        # a double in a response header is decoded under the CLIENT's RealType option: float32 refuses
+                        # (or rounds) what a float64 holds; that is the decoder's documented conversion (C06), not a
+                        # property of the call, so random header values carry no floats
+                        if '"float' not in json.dumps(hvv) and '"complex' not in json.dumps(hvv):
+                            break
+                        hvv = self.cg.value_for(IFACE, pool)
+                    else:
+                        hvv = {"t": IFACE, "v": {"t": T("string"), "v": hx(shared)}}
+                    rhdrs.append({"k": hx(k), "v": hvv})
         if kw.get("ref_mode"):
             co["simple"], so["simple"] = False, False
         return {"family": family, "transport": transport, "pool": kw.get("pool", r.random() < 0.5), "copts": co, "sopts": so, "rhdrs": rhdrs,
@@ -201,6 +225,20 @@ def make_group(rng, g, transport, pool):
     co, so = g.cg.options()
     return {"family": "concurrent", "group": True, "transport": transport, "pool": pool, "copts": co, "sopts": so,
             "nfuncs": nf, "calls": calls}
+
+
+def make_shared_ctx(rng, g, transport, pool):
+    """one *ClientContext reused for proxy calls with different result signatures (all reach conc_f1)"""
+    n = rng.choice([3, 4, 6])
+    # shape 2 (one declared result for a function that returns two) is not a supported declaration: not used
+    shapes = [3, 1, 4, 3, 1] if rng.random() < 0.5 else [rng.choice([1, 3, 4]) for _ in range(n)]
+    if len(set(shapes)) == 1:
+        shapes[0] = {1: 3, 3: 4, 4: 1}[shapes[0]]
+    calls = [{"f": f, "x": i + 1 + 10 * rng.randint(0, 9), "via": "proxy",
+              "s": hx(rng.choice([b"a", b"", b"hello", "中".encode()]))} for i, f in enumerate(shapes)]
+    co, so = g.cg.options()
+    return {"family": "shared-client-context", "group": True, "shared_ctx": True, "transport": transport, "pool": pool,
+            "copts": co, "sopts": so, "nfuncs": 1, "calls": calls}
 
 
 def gen_cases(ctx, reg):
@@ -251,6 +289,8 @@ def gen_cases(ctx, reg):
         for pool in (False, True):
             for _ in range(3 if quick else 10):
                 cases.append(make_group(ctx.rng, g, t, pool))
+            for _ in range(2 if quick else 8):
+                cases.append(make_shared_ctx(ctx.rng, g, t, pool))
     # many calls one after the other on ONE udp connection: the 15-bit request index wraps after 32767 calls
     co, so = g.cg.options()
     cases.append({"family": "long-sequence", "group": True, "transport": "udp", "pool": False, "copts": co, "sopts": so,
@@ -290,7 +330,7 @@ def model_line(c, o):
     if c["via"] == "proxy":
         p = c["proxy"]
         parts.append("(proxy (path %s) (tag %s) (ns %s) (ctx %d) (variadic %d) (nfixed %d) (err %d))" % (
-            " ".join("x" + hx(f.encode()) for f in p["path"]), ("x" + p["tag"]) if p["tag"] else "", ("x" + p["ns"]) if p["ns"] else "",
+            " ".join("x" + hx(f.encode()) for f in naming_path(p)), ("x" + p["tag"]) if p["tag"] else "", ("x" + p["ns"]) if p["ns"] else "",
             int(p["ctx"]), int(p["variadic"]), p["nfixed"], int(p["err"])))
     else:
         parts.append("(call x%s)" % c["call"])
@@ -361,6 +401,24 @@ def group_verdict(c, o, models):
             fails.append(("sequential-calls-entered-function-wrong-number-of-times",
                           "%d calls, %d entries into the function" % (c["seq"], o.get("seq_runs", 0))))
         return fails, dis
+    if c.get("shared_ctx"):
+        for i, (call, oc) in enumerate(zip(c["calls"], o["calls"])):
+            text, num = conc_result(1, call["x"], bytes.fromhex(call["s"]))
+            sig = {1: "(string, int, error)", 2: "(string, error)", 3: "error", 4: "(string, int)"}[call["f"]]
+            where = "call %d of %d made with one reused ClientContext on a %s client: proxy function with results %s" % (
+                i + 1, len(c["calls"]), c["transport"], sig)
+            want_s = text.hex() if call["f"] != 3 else ""
+            want_n = num if call["f"] in (1, 4) else 0
+            if oc.get("panic"):
+                fails.append(("reused-context-call-panics", where + " panicked: " + oc["panic"][:120]))
+            elif oc.get("failed"):
+                fails.append(("reused-context-call-fails", where + " failed: " + oc.get("err", "")[:120]))
+            elif oc["got_s"] != want_s or oc["got_n"] != want_n:
+                fails.append(("reused-context-call-returns-wrong-results",
+                              where + " returned (%r, %d); the function returns (%r, %d)"
+                              % (bytes.fromhex(oc["got_s"]).decode("utf-8", "replace"), oc["got_n"],
+                                 text.decode("utf-8", "replace"), num)))
+        return fails, dis
     want_log = sorted((call["f"], call["x"], call["s"]) for call in c["calls"])
     got_log = sorted((e["f"], e["x"], e["s"]) for e in (o.get("log") or []))
     for i, (call, oc) in enumerate(zip(c["calls"], o["calls"])):
@@ -402,7 +460,7 @@ def expected_name(c):
     """the name the property says goes on the wire: computed here, not taken from the implementation"""
     if c["via"] == "proxy":
         p = c["proxy"]
-        return hx(mangled(bytes.fromhex(p["ns"]), bytes.fromhex(p["tag"]), p["path"]))
+        return hx(mangled(bytes.fromhex(p["ns"]), bytes.fromhex(p["tag"]), naming_path(p)))
     return c["call"]
 
 
@@ -664,7 +722,7 @@ def run_cases(ctx, cases):
     done = [c for c in cases if c["id"] in obs_by_id and not obs_by_id[c["id"]].get("build_err") and not obs_by_id[c["id"]].get("env")]
     lines, owner = [], []
     for c in done:
-        ls = (group_model_lines(c) if not c.get("seq") else []) if c.get("group") else [model_line(c, obs_by_id[c["id"]])]
+        ls = (group_model_lines(c) if not (c.get("seq") or c.get("shared_ctx")) else []) if c.get("group") else [model_line(c, obs_by_id[c["id"]])]
         lines += ls
         owner += [c["id"]] * len(ls)
     outs = hv.run_model("c08", lines) if lines else []
